@@ -773,11 +773,95 @@ def _api(ctx, seqs, inter, compare=True):
 # ------------------------------------------------------------------------------------------------------
 # interface
 # ------------------------------------------------------------------------------------------------------
+# ------------------------------------------------------------------------------------------------
+# two sessions on one tree: whatever one session did, the other sees the same on every backend
+# ------------------------------------------------------------------------------------------------
+async def _two_session_ftp(loop, backend, script):
+    import world as W
+
+    wd = W.World(loop, S.USERS_ANON, backend=backend)
+    await wd.start()
+    out = []
+    try:
+        wd.set_tree(S.TREE)
+        raws = [await wd.raw_client(), await wd.raw_client()]
+        for r in raws:
+            await W.run_line(wd, r, b"USER bob")
+        for sid, line in script:
+            r = raws[sid]
+            if line.split(" ")[0] in ("RETR", "STOR", "APPE", "LIST", "MLSD"):
+                await W.run_line(wd, r, b"EPSV")
+                await W.data_connect(wd, r)
+            codes, crashed, data, listing = await W.run_line(wd, r, line.encode(), b"NEW-payload" if line.split(" ")[0] in ("STOR", "APPE") else b"")
+            out.append((sid, line, codes, data if isinstance(data, bytes) else None, sorted(listing) if listing is not None else None))
+        tree = wd.tree()
+        for r in raws:
+            r.close()
+        await loop.settle()
+    finally:
+        try:
+            await wd.stop()
+        except Exception:
+            wd.finish()
+    return out, tree
+
+
+def _two_job(args):
+    import simnet
+
+    try:
+        return simnet.run(_two_session_ftp, *args)
+    except BaseException as e:  # noqa
+        return "HARNESS-ERROR %s: %s" % (type(e).__name__, e)
+
+
+def two_session_scripts(ctx):
+    firsts = [["RETR f.txt"], ["CWD d"], ["MLST d/g.txt"], ["RETR d/g.txt"], ["CWD d", "MLST g.txt"], ["LIST d"], ["RNFR f.txt"]]
+    changes = [["DELE f.txt"], ["DELE d/g.txt"], ["RNFR d", "RNTO e2"], ["RNFR d", "RNTO e2", "MKD d"], ["DELE f.txt", "MKD f.txt"], ["RNFR f.txt", "RNTO d/f.txt"],
+               ["DELE d/g.txt", "RMD d/sub", "RMD d"], ["STOR f.txt"], ["RNFR d/g.txt", "RNTO g2.txt", "STOR d/g.txt"]]
+    nexts = [["RETR f.txt"], ["RETR d/g.txt"], ["STOR d/new.bin"], ["MLST f.txt"], ["MLST d"], ["LIST d"], ["CWD d"], ["STOR new.bin", "RETR new.bin"], ["RNTO moved.txt"], ["MKD d/x"], ["DELE f.txt"], ["PWD", "MLST g.txt"]]
+    out = []
+    for f in firsts:
+        for c in changes:
+            for nx in (nexts if ctx.thorough() else nexts[: 6 + (len(out) % 3)]):
+                out.append([(0, l) for l in f] + [(1, l) for l in c] + [(0, l) for l in nx] + [(1, "LIST"), (0, "LIST d")])
+    return out
+
+
+def _two_sessions(ctx):
+    import multiprocessing
+    import os
+
+    res = Result()
+    scripts = two_session_scripts(ctx)
+    jobs = [(b, sc) for sc in scripts for b in ("memory", "pathio", "async")]
+    mp = multiprocessing.get_context("fork")
+    with mp.Pool(min(16, os.cpu_count() or 4)) as pool:
+        outs = pool.map(_two_job, jobs, chunksize=6)
+    for i, sc in enumerate(scripts):
+        m, p_, a = outs[3 * i : 3 * i + 3]
+        res.cases += 1
+        res.count("two_session_scripts")
+        inp = {"level": "ftp-two-sessions", "script": [list(x) for x in sc]}
+        if any(isinstance(x, str) for x in (m, p_, a)):
+            res.disagreements.append({"correspondence": "C18 two-session harness", "input": inp, "impl": [x if isinstance(x, str) else "ok" for x in (m, p_, a)]})
+            continue
+        res.distinct.add(("two", repr(sc)))
+        for name, other in (("pathio", p_), ("async", a)):
+            if other != m:
+                k = next((j for j, (x, y) in enumerate(zip(m[0], other[0])) if x != y), None)
+                what = ("step %d %r: memory %r, %s %r" % (k, m[0][k][:2], m[0][k][2:], name, other[0][k][2:])) if k is not None else "the trees differ afterwards"
+                res.oracle_failures.append({"input": inp, "what": "two sessions on one tree, the same script: " + what, "signature": "C18:two-sessions:backends-differ"})
+                break
+    return res
+
+
 def _run(ctx, compare=True, extra_ftp=(), extra_api=()):
     hist = [("prior", h) for h in extra_ftp] + gen_histories(ctx)
     res = _ftp(ctx, hist, compare)
     seqs = list(extra_api) + gen_api(ctx)
     res.merge(_api(ctx, seqs, gen_api_interleaved(ctx), compare))
+    res.merge(_two_sessions(ctx))
     res.samples = [
         {"level": "ftp", "commands": PREFIX + hist[len(hist) // 2][1]},
         {"level": "ftp", "commands": PREFIX + hist[-1][1]},
@@ -819,7 +903,17 @@ def _norm_ops(ops):
     return out
 
 
+def _replay_two(inp):
+    sc = [tuple(x) for x in inp["script"]]
+    outs = [_two_job((b, sc)) for b in ("memory", "pathio", "async")]
+    for b, o in zip(("memory", "pathio", "async"), outs):
+        print(b, o if isinstance(o, str) else [x[2:] for x in o[0]])
+    return any(isinstance(o, str) for o in outs) or outs[0] != outs[1] or outs[0] != outs[2]
+
+
 def replay(ctx, doc):
+    if doc["failure"]["input"].get("level") == "ftp-two-sessions":
+        return _replay_two(doc["failure"]["input"])
     f = doc["failure"]
     i = f["input"]
     if i.get("level") == "api":
